@@ -176,6 +176,35 @@ fn lag(rep: &mut Report, v: &Value) {
     let ff = f64::enc(fill);
     let fo = if fill == NULL { None } else { Some(ff) };
 
+    // a lazily generated series LONGER than i32::MAX elements (the lag is an i32, the length is not):
+    // the announced length and the first outputs against the positional definition.  Once per lag
+    // (the empty-series case of the enumeration is the trigger).
+    if s.is_empty() {
+        for big in [1u64 << 31, (1u64 << 32) + 5] {
+            let key = format!("vshift|n={n},fill={}|lazy series of {big} elements", if fill == NULL { "null".to_string() } else { fill.to_string() });
+            rep.cells += 1;
+            let r = catch(|| -> Result<(), String> {
+                let it = (0..big).map(|j| j as f64).vshift(n, fo);
+                let h = it.size_hint();
+                if h != (big as usize, Some(big as usize)) {
+                    return Err(format!("announces {h:?} for a series of {big} elements"));
+                }
+                for (i, got) in it.take(8).enumerate() {
+                    let src = i as i128 - n as i128;
+                    let want = if src < 0 || src >= big as i128 { if fill == NULL { f64::NAN } else { fill as f64 } } else { src as f64 };
+                    if !(got == want || (got.is_nan() && want.is_nan())) {
+                        return Err(format!("element {i} is {got}, the definition gives {want}"));
+                    }
+                }
+                Ok(())
+            });
+            match r {
+                Ok(Ok(())) => rep.ok("vshift", 0.0),
+                Ok(Err(d)) => rep.mismatch("vshift", "vshift|lazy long series", &key, "Range<u64>.map()", &d, v),
+                Err(p) => rep.mismatch("vshift", "vshift|lazy long series", &key, "Range<u64>.map()", &format!("panicked: {p}"), v),
+            }
+        }
+    }
     // shift (explicit fill value) and vshift (optional fill value, default null)
     cmp_seq(rep, "shift", &key("shift"), "Vec<f64>.titer()", catch(|| drain(vf.titer().shift(n, ff))), &e_shift, v);
     cmp_seq(rep, "shift", &key("shift"), "Vec<Option<f64>>.titer()", catch(|| drain(vo.titer().shift(n, <Option<f64>>::enc(fill)))), &e_shift, v);
@@ -322,7 +351,7 @@ fn cut(rep: &mut Report, v: &Value) {
     // element type f64 with f64 labels (null label = NaN)
     {
         let vals: Vec<f64> = s.iter().map(|x| enc_f(*x)).collect();
-        let b: Vec<f64> = bins.iter().map(|x| *x as f64).collect();
+        let b: Vec<f64> = bins.iter().map(|x| enc_f(*x)).collect();
         let labels: Vec<f64> = (0..nl).map(|i| 100.0 + i as f64).collect();
         let r = catch(|| {
             vals.titer().vcut(&b, &labels, right, bounds).map(|it| it.map(|x| x.map_err(|e| e.to_string())).collect::<Vec<Result<f64, String>>>())
@@ -335,7 +364,7 @@ fn cut(rep: &mut Report, v: &Value) {
         for (field, nulllab) in [("exp_null_first", 0usize), ("exp_null_last", nl - 1)] {
             let expn = get_ints(v, field);
             let vals: Vec<f64> = s.iter().map(|x| enc_f(*x)).collect();
-            let b: Vec<f64> = bins.iter().map(|x| *x as f64).collect();
+            let b: Vec<f64> = bins.iter().map(|x| enc_f(*x)).collect();
             let labels: Vec<f64> = (0..nl).map(|i| if i == nulllab { f64::NAN } else { 100.0 + i as f64 }).collect();
             let r = catch(|| {
                 vals.titer().vcut(&b, &labels, right, bounds).map(|it| it.map(|x| x.map_err(|e| e.to_string())).collect::<Vec<Result<f64, String>>>())
@@ -354,7 +383,7 @@ fn cut(rep: &mut Report, v: &Value) {
     {
         let idx: Vec<usize> = (0..s.len()).filter(|i| s[*i] != NULL).collect();
         let vals: Vec<i32> = idx.iter().map(|i| match s[*i] { TMIN => i32::MIN, TMAX => i32::MAX, x => x as i32 }).collect();
-        let b: Vec<i32> = bins.iter().map(|x| *x as i32).collect();
+        let b: Vec<i32> = bins.iter().map(|x| match *x { TMIN => i32::MIN, TMAX => i32::MAX, v => v as i32 }).collect();
         let labels: Vec<Option<i32>> = (0..nl).map(|i| Some(100 + i as i32)).collect();
         let s2: Vec<i64> = idx.iter().map(|i| s[*i]).collect();
         let e2: Vec<i64> = idx.iter().map(|i| exp[*i]).collect();
@@ -366,7 +395,7 @@ fn cut(rep: &mut Report, v: &Value) {
     // optional values: Option<f64> with f64 labels
     {
         let vals: Vec<Option<f64>> = s.iter().map(|x| if *x == NULL { None } else { Some(enc_f(*x)) }).collect();
-        let b: Vec<Option<f64>> = bins.iter().map(|x| Some(*x as f64)).collect();
+        let b: Vec<Option<f64>> = bins.iter().map(|x| Some(enc_f(*x))).collect();
         let labels: Vec<f64> = (0..nl).map(|i| 100.0 + i as f64).collect();
         let r = catch(|| {
             vals.titer().vcut(&b, &labels, right, bounds).map(|it| it.map(|x| x.map_err(|e| e.to_string())).collect::<Vec<Result<f64, String>>>())
